@@ -19,6 +19,18 @@ from chuk_mcp.protocol import mcp_pydantic_base as B  # noqa: E402
 
 cases = pickle.load(open(inp, "rb"))
 
+if os.environ.get("VF_APP_MODULE") == "1":
+    # an unrelated module of the application that happens to use the same names as some of the library's model
+    # classes for its own generic aliases (Tool = Dict[str, Any], Root = List[int], ...)
+    import types
+    import typing
+    app = types.ModuleType("aaa_application_types")
+    for c in cases:
+        if "cls" in c:
+            nm = c["cls"].split(":")[1]
+            setattr(app, nm, typing.List[int] if len(nm) % 2 else typing.Dict[str, int])
+    sys.modules["aaa_application_types"] = app
+
 
 def tree(v, depth=0):
     """Class names at model-typed positions."""
